@@ -314,6 +314,7 @@ static void scenario(const vh::Json& sc, vh::Out& out, vh::Rng& rng, const vh::A
     for (size_t i = 0; i < n; ++i) {
         if (!ser_thrown.empty()) back[i].thrown = "serialize: " + ser_thrown; else if (!q.layer) back[i].thrown = "parse: " + parse_thrown; else back[i] = read(*ent[i], q.layer);
         vh::W w; w.O().kv("e", "opt").kv("cls", cls).kv("opt", steps[i]["opt"].str()).kv("idx", (long)(i + 1)).key("val"); val[i].json(w);
+        if (i + 1 == n && sc["emit_bytes"].truth()) w.kbytes("wire", bytes);      // for C01: the packet as a base for fault injection
         w.kv("set_thrown", set_thrown[i]).key("got"); got[i].json(w); w.key("later"); later[i].json(w); w.kv("ser_thrown", ser_thrown).kv("size", (long)bytes.size()).key("back"); back[i].json(w); w.E();
         out.event(w);
     }
